@@ -6,6 +6,7 @@ import (
 
 	"verif/mc/bind"
 	"verif/mc/core"
+	"verif/mc/env"
 	"verif/mc/gen"
 	"verif/mc/spec"
 )
@@ -18,7 +19,7 @@ func init() {
 		Title: "Everything WriteTo emits is a structurally valid MQTT v5.0 frame",
 		Level: "exploration",
 		Rule: "the C01 enumeration (strata S0-S3, all 15 types) restricted to packets that are well formed by MQTT's own rules and keep the default protocol name/version; " +
-			"each is built through the public API, written with WriteTo, and the emitted bytes are judged by the strict specification decoder (package spec: written from the OASIS text, no code or constant shared with the library): " +
+			"each is built through the public API, written with WriteTo (the frame must reach the writer in one Write call), and the emitted bytes are judged by the strict specification decoder (package spec: written from the OASIS text, no code or constant shared with the library): " +
 			"it must accept, consume the frame exactly, and decode exactly the values that were set (absent property = zero value). " +
 			"distinct_nontrivial = distinct well-formed abstract packets with at least one optional field present.",
 		Assumptions: []string{
@@ -47,9 +48,18 @@ func c02Exec(c *pcase) (*core.Finding, bool) {
 	if err != nil {
 		return nil, false
 	}
-	f1, _, werr, res := writePacket(q, 0)
+	w := &env.Writer{FailAfter: -1}
+	var werr error
+	res = guarded(0, func() { _, werr = q.WriteTo(w) })
+	f1 := w.Buf
 	if res.Panic != "" || werr != nil {
 		return mk("write-fails", fmt.Sprintf("%v %s", werr, res.Panic)), true
+	}
+	if len(w.Calls) != 1 {
+		// "written as exactly one frame": the writer is handed the frame in
+		// one piece (pieces can be torn apart by another writer of the same
+		// connection)
+		return mk("frame-in-pieces", fmt.Sprintf("the frame reached the writer in %d Write calls", len(w.Calls))), true
 	}
 	d, _, n, derr := spec.Decode(f1, true)
 	if derr != nil {
